@@ -233,7 +233,10 @@ func (self *Core) runInstruction(instruction compiler.Instruction) *value.VmInte
 			fmt.Printf("Memory write access `%v` at %x\n", *v, abs)
 		}
 
-		self.Memory[abs] = v
+		// Bind a fresh slot: `v` may point into a list or object (e.g. `let x = list[0]`),
+		// and a later write through that container must not change this variable.
+		bound := *v
+		self.Memory[abs] = &bound
 	case compiler.Opcode_SetGlobImm:
 		i := instruction.(compiler.OneStringInstruction)
 		v := self.pop()
